@@ -389,6 +389,9 @@ func genHTTPCase(r *kit.Rng, work string, id int) httpCase {
 		}
 		if r.Chance(0.3) {
 			name := fmt.Sprintf("b%d_%d.bin", id, i)
+			if r.Chance(0.2) {
+				name = fmt.Sprintf("b %d_%d .bin", id, i) // spaces inside the path
+			}
 			p := filepath.Join(work, name)
 			content := []byte(fmt.Sprintf("body %d of file %d\n", i, id))
 			if r.Chance(0.2) {
@@ -780,6 +783,13 @@ func altJSONLine(r *kit.Rng, t *vegeta.Target) string {
 	}
 	if r.Chance(0.3) {
 		m["extra"] = map[string]interface{}{"ignored": []int{1, 2, 3}}
+	}
+	// explicit nulls for absent members
+	if _, ok := m["body"]; !ok && r.Chance(0.3) {
+		m["body"] = nil
+	}
+	if _, ok := m["header"]; !ok && r.Chance(0.3) {
+		m["header"] = nil
 	}
 	var b []byte
 	if r.Chance(0.5) {
